@@ -29,6 +29,9 @@ def check(ctx):
     rnd = []
     for i in range(1500 if ctx.thorough else 300):
         rnd += vc.random_script(ctx.rng, "vec", "tracked" if i % 3 else "int", 0, 80)
+    # element type double with zeros of both signs and NaN
+    for i in range(400 if ctx.thorough else 80):
+        rnd += vc.double_script(ctx.rng)
     # sizes around and beyond the 8- and 16-bit boundaries
     for n in (255, 256, 257, 300):
         rnd += vc.big_script(ctx.rng, "tracked", n)
